@@ -73,6 +73,11 @@ CHECKS = {
    note="Trusted: Coq kernel/vm_compute; Model/Degeneracy.v, Model/Shapes.v, Model/PathSum.v; Python harness. The scatter loops that build the reduced dk=0 tensors are tied by correspondence, not proved.",
    technique="Coq proof (lists / first-index class maps; ring identity) + exact partition correspondence + reduced-vs-full path-sum correspondence",
    design="3/C06"),
+ "C08": dict(
+   text="Theorems (Coq, any commutative ring, every dimension and chain length; a computation is a chain of linear maps on the augmented space): pulling a covector back through a chain applies the transposed maps in reverse order (backprop_reverse_order, induction over the chain with <b,Av> = <A^T b,v>); the objective as a function of one map of the chain is the forward state sandwiched with the back-propagated target — the adjoint tensor (adjoint_tensor_correct); the objective is linear in every single map, which is the chain rule (chain_rule_linearity); same-order back-propagation is refuted on two non-commuting maps. Tied to /repo exactly: with injected integer propagators and propagator derivatives every entry of state_gradient must equal the objective re-evaluated with the half-step propagator replaced by its derivative (1-2 integer environments), the reported dynamics must equal compute_dynamics, and the stored adjoint tensors are compared with the Coq model; finite differences on PT-TEMPO tensors with a parameter-dependent dissipator.",
+   note="Trusted: Coq kernel/vm_compute; Model/PT.v, Model/Dyn.v; Python harness; public extension points of ParameterizedSystem. The propagator derivatives (user supplied or numerically differentiated) are a contract.",
+   technique="Coq proof (finite-sum linear algebra, induction over the chain) + exact multilinearity correspondence + finite-difference search",
+   design="3/C08"),
 }
 
 NOT_YET = {}
